@@ -54,7 +54,7 @@ def run(pid, tier):
             e = E[int(v["state"]["i"]) - 1]
             key = "gauss/%s/%s/%s%s" % (e["fn"], e["kind"], "%dx%d" % (len(e["A"]), len(e["A"][0])), "/lsq" if e["lsq"] else "")
             V.add(key, "solve %s (%s, kind %s, %dx%d, lsq=%s, outcome %s): solution rejected by SolveObs / PermObs" % (e["key"], e["fn"], e["kind"], len(e["A"]), len(e["A"][0]), e["lsq"], e["o"]),
-                  {"engine": "gauss", "event": e})
+                  {"engine": "gauss", "event": e}, src=p)
     # growth beyond the listed property: the tensor products the solver's least-squares mode is built on
     prod = os.path.join(d, "products.ndjson")
     nprod = 0
@@ -69,7 +69,7 @@ def run(pid, tier):
                     E = vlib.read_ndjson(q)
                 e = E[int(v["state"]["i"]) - 1]
                 V.add("linalg/products/%s" % e["kind"], "tensor products %s (kind %s): a recorded result is not the product Linalg.tla defines" % (e["key"], e["kind"]),
-                      {"engine": "gauss", "module": "Trace_Linalg", "event": e})
+                      {"engine": "gauss", "module": "Trace_Linalg", "event": e}, src=q)
     bind = {"skipped": "violations were found"}
     if traces and not V.viol:
         E = vlib.read_ndjson(traces[-1])
